@@ -844,8 +844,8 @@ class DataSet:
                     self._corrprod_keep &= [(inpA[:-1] != inpB[:-1])
                                             for inpA, inpB in self.subarrays[self.subarray].corr_products]
                 else:
-                    v = np.asarray(v)
-                    if v.ndim == 2 and v.shape[1] == 2:
+                    v = v if isinstance(v, slice) else np.asarray(v)
+                    if not isinstance(v, slice) and v.ndim == 2 and v.shape[1] == 2:
                         all_corrprods = self.subarrays[self.subarray].corr_products
                         v = v.tolist()
                         v = np.array([list(cp) in v for cp in all_corrprods])
